@@ -108,4 +108,144 @@ theorem fifo_reach {s : State} (h : Reach s) : Fifo s := by
     · intro s e s' o hi hs; exact ⟨invQ_step hi.1 hs, fifo_step hi.1 hi.2 hs⟩
   exact this.2
 
+
+/-! ### no loss under scope-only cancellation -/
+
+/-- the one environment event the C12 claim excludes (DESIGN section 4): a native
+`Task.cancel()` that sets `_must_cancel` on a receiver whose slot already holds an item -/
+def NativeAfterHandover (s : State) (e : Ev) : Prop :=
+  ∃ t x, e = .mc t ∧ s.pc t = .recvWoken (some x)
+
+/-- states reachable without that event -/
+inductive ReachScope : State → Prop
+  | start (m : Option Nat) : ReachScope (init m)
+  | next {s e s' o} : ReachScope s → step s e = some (s', o) → ¬ NativeAfterHandover s e →
+      ReachScope s'
+
+theorem ReachScope.reach {s : State} (h : ReachScope s) : Reach s := by
+  induction h with
+  | start m => exact Reachable.start ⟨m, rfl⟩
+  | next _ hs _ ih => exact Reachable.next ih hs
+
+/-- nothing lost so far and no receiver is about to lose its slot -/
+def NL (s : State) : Prop := s.lost = [] ∧ ∀ t x, s.pc t ≠ .recvWokenMC (some x)
+
+theorem NL.mapPc {s s' : State} (hn : NL s) (e1 : s'.lost = s.lost)
+    (e2 : ∀ v, s'.pc v = s.pc v ∨ ∀ x, s'.pc v ≠ .recvWokenMC (some x)) : NL s' := by
+  refine ⟨by rw [e1]; exact hn.1, fun t x hp => ?_⟩
+  rcases e2 t with h | h
+  · rw [h] at hp; exact hn.2 t x hp
+  · exact h x hp
+
+theorem nl_sendCore {s : State} (hn : NL s) (h x : Nat) (P : List Nat) : NL (sendCore s h x P).1 := by
+  rcases sendCore_cases s h x P with ⟨hc, he⟩ | ⟨hc, ho, he⟩ | ⟨hc, ho, d, u, rest, hw, hd, hu, huP, he⟩ |
+    ⟨hc, ho, hd, hf', he⟩ | ⟨hc, ho, hd, hf', he⟩
+  all_goals rw [he]
+  · exact hn
+  · exact hn
+  all_goals
+    refine hn.mapPc rfl (fun v => ?_)
+    simp only [upd_apply, orphanize_apply]
+    grind
+
+theorem nl_recvCore {s : State} (hn : NL s) (h : Nat) : NL (recvCore s h).1 := by
+  rcases recvCore_cases s h with ⟨hc, he⟩ | ⟨hc, hws, hb, ho, he⟩ | ⟨hc, hws, hb, ho, he⟩ |
+    ⟨hc, hws, y, ys, hb, he⟩ | ⟨hc, u, x, b, rest, y, ys, hws, hb, he⟩
+  all_goals rw [he]
+  · exact hn
+  · exact hn
+  · exact hn
+  · exact hn.mapPc rfl (fun v => Or.inl rfl)
+  · refine hn.mapPc rfl (fun v => ?_)
+    simp only [upd_apply]
+    rcases wakeSender_cases (s.pc u) with ⟨x0, hp0, hw0⟩ | ⟨hp0, hw0⟩ <;> rw [hw0] <;> grind
+
+theorem nl_step {s s' : State} {e : Ev} {o : Out} (hn : NL s) (hs : step s e = some (s', o))
+    (hne : ¬ NativeAfterHandover s e) : NL s' := by
+  cases e with
+  | send t h x pre =>
+    simp only [step] at hs; split at hs; · contradiction
+    cases hs; exact hn.mapPc rfl (fun v => by simp only [upd_apply]; grind)
+  | receive t h pre =>
+    simp only [step] at hs; split at hs; · contradiction
+    cases hs; exact hn.mapPc rfl (fun v => by simp only [upd_apply]; grind)
+  | sendNowait t h x P =>
+    simp only [step] at hs; split at hs; · contradiction
+    have := nl_sendCore (s := { s with offered := s.offered ++ [(t, x)] }) hn h x P
+    generalize sendCore _ h x P = r at hs this
+    obtain ⟨s1, res⟩ := r
+    cases res <;> simp only at hs <;> cases hs <;>
+      exact this.mapPc rfl (fun v => by simp only [reject, upd_apply]; grind)
+  | receiveNowait t h =>
+    simp only [step] at hs; split at hs; · contradiction
+    have := nl_recvCore hn h
+    generalize recvCore s h = r at hs this
+    obtain ⟨s1, res⟩ := r
+    cases res <;> simp only at hs <;> cases hs <;> exact this
+  | closeS t h =>
+    simp only [step] at hs
+    split at hs <;> (try split at hs) <;> (try split at hs) <;> simp at hs <;>
+      (rw [← hs.1]; exact hn.mapPc rfl (fun v => by simp only [wakeRecv_eq]; grind))
+  | closeR t h =>
+    simp only [step] at hs
+    have hwk := wakeSender_cases
+    split at hs <;> (try split at hs) <;> (try split at hs) <;> simp at hs <;>
+      (rw [← hs.1]; exact hn.mapPc rfl (fun v => by grind))
+  | cloneS t h =>
+    simp only [step] at hs
+    split at hs <;> (try split at hs) <;> simp at hs <;>
+      (rw [← hs.1]; exact hn.mapPc rfl (fun v => Or.inl rfl))
+  | cloneR t h =>
+    simp only [step] at hs
+    split at hs <;> (try split at hs) <;> simp at hs <;>
+      (rw [← hs.1]; exact hn.mapPc rfl (fun v => Or.inl rfl))
+  | fc t =>
+    simp only [step] at hs
+    split at hs <;> simp at hs <;>
+      (rw [← hs.1]; exact hn.mapPc rfl (fun v => by simp only [upd_apply]; grind))
+  | mc t =>
+    simp only [step] at hs
+    split at hs <;> try contradiction
+    · cases hs; exact hn.mapPc rfl (fun v => by simp only [upd_apply]; grind)
+    · cases hs; exact hn.mapPc rfl (fun v => by simp only [upd_apply]; grind)
+    · cases hs; exact hn.mapPc rfl (fun v => by simp only [upd_apply]; grind)
+    · rename_i sl hpc
+      cases hs
+      cases sl with
+      | none => exact hn.mapPc rfl (fun v => by simp only [upd_apply]; grind)
+      | some x => exact absurd ⟨t, x, rfl, hpc⟩ hne
+  | step t P =>
+    simp only [step] at hs
+    split at hs <;> try contradiction
+    · rename_i h x hpc
+      have := nl_sendCore hn h x P
+      generalize sendCore s h x P = r at hs this
+      obtain ⟨s1, res⟩ := r
+      cases res <;> simp only at hs <;> cases hs <;>
+        exact this.mapPc rfl (fun v => by simp only [reject, upd_apply]; grind)
+    · cases hs; exact hn.mapPc rfl (fun v => by simp only [reject, upd_apply]; grind)
+    · cases hs; unfold sendCancelled
+      split <;> exact hn.mapPc rfl (fun v => by simp only [reject, upd_apply]; grind)
+    · cases hs; unfold sendCancelled
+      split <;> exact hn.mapPc rfl (fun v => by simp only [reject, upd_apply]; grind)
+    · split at hs <;>
+        (cases hs; exact hn.mapPc rfl (fun v => by simp only [reject, upd_apply]; grind))
+    · rename_i h hpc
+      have := nl_recvCore hn h
+      generalize recvCore s h = r at hs this
+      obtain ⟨s1, res⟩ := r
+      cases res <;> simp only at hs <;> cases hs <;>
+        exact this.mapPc rfl (fun v => by simp only [upd_apply]; grind)
+    · cases hs; exact hn.mapPc rfl (fun v => by simp only [upd_apply]; grind)
+    · cases hs; exact hn.mapPc rfl (fun v => by simp only [upd_apply]; grind)
+    · cases hs; exact hn.mapPc rfl (fun v => by simp only [upd_apply]; grind)
+    · cases hs; exact hn.mapPc rfl (fun v => by simp only [upd_apply]; grind)
+    · rename_i x hpc; exact absurd hpc (hn.2 t x)
+    · cases hs; exact hn.mapPc rfl (fun v => by simp only [upd_apply]; grind)
+
+theorem nl_reachScope {s : State} (h : ReachScope s) : NL s := by
+  induction h with
+  | start m => exact ⟨rfl, fun t x hp => by simp [init] at hp⟩
+  | next _ hs hne ih => exact nl_step ih hs hne
+
 end AnyioModel.Stream.Memory
